@@ -152,7 +152,7 @@ func c10intRing(r *h.Rand) []P {
 func init() {
 	h.Register(&h.Monitor{
 		ID: "C10",
-		Rule: "integer rings of 3..12 vertices with |v| <= 2^20 (local extents 10, 100, 5000, 2^19 around a random base point; star-shaped and arbitrary vertex lists) in every rotation, reversed and translated by integer vectors, with lattice query points (vertices, edge midpoints, nearby lattice points); validated polygons with holes of either winding, multi-polygons, collections with lower-dimensional members; line strings, multi line strings and multi points for length/count weighted centroids; general-position float rings compared within a relative 1e-9. " +
+		Rule: "integer rings of 3..12 vertices with |v| <= 2^20 (local extents 10, 100, 5000, 2^19 around a random base point; star-shaped and arbitrary vertex lists) in every rotation, reversed and translated by integer vectors, with lattice query points (vertices, edge midpoints, nearby lattice points); validated polygons with holes of either winding, multi-polygons, collections with lower-dimensional members; line strings, multi line strings and multi points for length/count weighted centroids; general-position float rings compared within a relative 1e-9; boxes with one corner coordinate moved, every segment of the 5x5 grid against every point of the 7x7 grid, points and multi points (no area, no length). " +
 			"non-trivial = ring of non-zero area (exact); distinct = hash of the vertices",
 		MinNontrivial: h.Fixed(10000, 500000),
 		Assumptions: []string{
